@@ -123,6 +123,12 @@ def make_case(ctx, fmt, variant, rng):
         hv["noaa_spacecraft_identification_code"] = [rng.choice([2, 4, 6, 7, 8, 1, 5, 3])]
         hv["number_of_scans"] = [variant["count"]]
         hv["data_set_name"] = name.encode() + (b"" if variant["epoch"] == 2 else b"  ")
+        if variant.get("noname"):
+            # the header carries NO data-set name (NULs, or blanks): the name then comes from the file name. Together with an
+            # all-zero header the bytes where an archive header would keep ITS name (offset 30..73) are NULs / blanks too -
+            # and still there is no archive header in front of this file
+            width = 42 if variant["epoch"] == 2 else 44
+            hv["data_set_name"] = (b"\0" if variant["noname"] == "nul" else b" ") * width
         block = bytearray(rec.size)
         block[:hs.size] = hs.build(hv)
         hdr = {"head": hv, "head_layout": hname}
@@ -197,6 +203,8 @@ def check_case(ctx, fmt, variant, drv_lines, expectations):
             except Exception as e:
                 problems.append(("header field %s not readable: %r" % (l["name"], e), l["name"]))
                 continue
+            if l["name"] == "data_set_name" and variant.get("noname"):
+                continue      # replaced by the file's name on purpose
             if not _cmp_leaf(l, hdr["head"][l["name"]], got):
                 problems.append(("header %s: wrote %r read %r" % (l["name"], hdr["head"][l["name"]], got), "header." + l["name"]))
         if "analog" in hdr:
@@ -264,6 +272,10 @@ def check_case(ctx, fmt, variant, drv_lines, expectations):
     return path
 
 
+def rng_n(e):
+    return (1, 5, 3)[e - 1]
+
+
 def variants(ctx, fmt):
     fam = filegen.FMT[fmt]["family"]
     out = []
@@ -285,6 +297,9 @@ def variants(ctx, fmt):
         for e in (1, 2, 3):
             lst.append(dict(base, n=3, count=3, epoch=e, start=starts[e], archive=True, aname="unset"))
         lst.append(dict(base, n=3, count=3, archive=True, aname="cp500"))
+        for e in (1, 2, 3):
+            lst.append(dict(base, n=rng_n(e), count=rng_n(e), epoch=e, start=starts[e], hmode="zero", noname="nul"))
+            lst.append(dict(base, n=2, count=2, epoch=e, start=starts[e], hmode="zero", noname="blank"))
         for e in (1, 2, 3):
             lst.append(dict(base, n=3, count=3, epoch=e, start=starts[e], archive=True, hdate="explicit"))
             lst.append(dict(base, n=2, count=2, epoch=e, start=starts[e], archive=False, hdate="explicit", tail=5))
